@@ -73,7 +73,7 @@ var props = map[string]*propCfg{
 		Stubs: []string{"goroutine scheduling (core scheduler)", "runtime.Gosched (spin model)", "time.Now/NewTicker (simulated clock)"},
 		Rule:  "cases = (initial content, per-thread programs over Push/Pop/PopWait/Len, optional probe thread, scheduler policy, stalls, freeze point) drawn from the run seed; non-trivial = >=2 operations open at once and >=1 preemption inside an operation; distinct = distinct event-log hash over such runs",
 	},
-	"C12": {ID: "C12", Engine: "A", Pkgs: "mapz", Imports: "sync=ssync", MapRange: true, Race: true, Level: "exploration", QuickS: 25, ThorS: 600,
+	"C12": {ID: "C12", Engine: "A", Pkgs: "mapz", Imports: impA, MapRange: true, Race: true, Level: "exploration", QuickS: 25, ThorS: 600,
 		Real:  []string{"mapz/safekv.go, mapz/iter.go, mapz/kv.go (every statement)", "sync.RWMutex (real lock taken after admission by the lock model)", "Go race detector"},
 		Stubs: []string{"goroutine scheduling (core scheduler)", "lock admission (reader/writer model)", "map iteration order (smap, seeded permutation)"},
 		Rule:  "cases = (initial map, per-thread programs over all SafeKV methods, scheduler policy, stalls) drawn from the run seed; non-trivial = >=2 operations open at once and >=1 preemption inside an operation; distinct = distinct event-log hash over such runs",
